@@ -20,8 +20,13 @@ pub enum Op {
     SetV { key: String, delta: i32, val: String },
     ArbiterConnect,
     ArbiterDisconnect,
-    /// the arbiter answers the oldest notice it holds; `take_new` = resolve with the conflicting value
-    Resolve { take_new: bool },
+    /// the arbiter answers the oldest (or, `newest`, the most recent) notice it holds; `take_new` =
+    /// resolve with the conflicting value
+    Resolve {
+        take_new: bool,
+        #[serde(default)]
+        newest: bool,
+    },
 }
 
 #[derive(Clone, Debug, Serialize, Deserialize)]
@@ -53,18 +58,18 @@ fn gen(rng: &mut Rng, cluster: bool) -> Program {
             7 => Op::ArbiterConnect,
             8 => {
                 if cluster {
-                    Op::Resolve { take_new: true }
+                    Op::Resolve { take_new: true, newest: false }
                 } else {
                     Op::ArbiterDisconnect
                 }
             }
-            _ => Op::Resolve { take_new: rng.chance(2, 3) },
+            _ => Op::Resolve { take_new: rng.chance(2, 3), newest: rng.chance(1, 3) },
         });
     }
     // finish: an arbiter is present and answers everything
     ops.push(Op::ArbiterConnect);
     for _ in 0..8 {
-        ops.push(Op::Resolve { take_new: rng.chance(1, 2) });
+        ops.push(Op::Resolve { take_new: rng.chance(1, 2), newest: false });
     }
     let nodes = if cluster { rng.range(2, 3) as usize } else { 1 };
     Program { ops, nodes, arbiter_node: rng.below(nodes as u64) as usize, writer_node: if cluster && rng.chance(1, 3) { rng.below(nodes as u64) as usize } else { 0 } }
@@ -291,26 +296,28 @@ fn execute(prog: Program) -> Outcome {
                     }
                 }
             }
-            Op::Resolve { take_new } => {
+            Op::Resolve { take_new, newest } => {
                 collect(&mut arbiter, &mut inbox);
                 let a = match arbiter.as_mut() {
                     Some(a) => a,
                     None => continue,
                 };
-                let n = match inbox.pop_front() {
+                // arbiters are free to answer in any order
+                let n = match if *newest { inbox.pop_back() } else { inbox.pop_front() } {
                     Some(n) => n,
                     None => continue,
                 };
                 let q = queue.get_mut(&n.key).unwrap();
-                if q.is_empty() {
-                    continue;
-                }
+                let qpos = match q.iter().position(|p| p.value == n.value) {
+                    Some(p) => p,
+                    None => continue,
+                };
                 let chosen = if *take_new { n.value.clone() } else { format!("kept{}", i) };
                 let line = format!("resolve {} {} {} {} {}", n.opp_id, n.db, n.key, n.version, chosen);
                 let r = a.exec(&line);
                 settle!();
                 out.resolved += 1;
-                q.pop_front();
+                q.remove(qpos);
                 value.insert(n.key.clone(), chosen.clone());
                 if r.resp.is_err() {
                     out.violations.push(Violation::new("resolve-refused", loc.clone(), format!("op #{} `{}` => {:?}", i, line, r.resp)));
@@ -394,7 +401,7 @@ impl Property for C13 {
         (10_000, 400_000)
     }
     fn rule(&self) -> &'static str {
-        "sequences of 2-10 of {plain write, versioned write at the current version, versioned write with a stale version, arbiter connect, arbiter disconnect, arbiter resolves its oldest notice (with the conflicting value or another one)} on 1-2 keys of a database created with the arbiter strategy, always ending with an arbiter that answers every notice; single node (direct sessions) and 2-3 node clusters with the arbiter and the writer attached to the primary or a secondary. Conflict-queue model per key: a conflicting write is answered with an error, leaves the key unchanged, is refused outright only while no arbiter ever registered, otherwise is recorded under $conflicts_ and delivered once to the registered arbiter / re-delivered to the next one; after all resolutions the key holds the last resolution, is writable, nothing is pending, a new arbiter gets nothing, replicas agree. Non-trivial: at least one conflict was queued and resolved. distinct = distinct (program, task-switch sequence)."
+        "sequences of 2-10 of {plain write, versioned write at the current version, versioned write with a stale version, arbiter connect, arbiter disconnect, arbiter resolves its oldest or its newest notice (with the conflicting value or another one)} on 1-2 keys of a database created with the arbiter strategy, always ending with an arbiter that answers every notice; single node (direct sessions) and 2-3 node clusters with the arbiter and the writer attached to the primary or a secondary. Conflict-queue model per key: a conflicting write is answered with an error, leaves the key unchanged, is refused outright only while no arbiter ever registered, otherwise is recorded under $conflicts_ and delivered once to the registered arbiter / re-delivered to the next one; after all resolutions the key holds the last resolution, is writable, nothing is pending, a new arbiter gets nothing, replicas agree. Non-trivial: at least one conflict was queued and resolved. distinct = distinct (program, task-switch sequence)."
     }
     fn components(&self) -> Json {
         json!({"real": ["consensus_ops (try_resolve_conflict_response, register_arbiter, resolve_conflit)", "process_request arbiter/resolve", "Change::next_version conflict cases", "replication of conflicts and resolves (cluster)"],
